@@ -44,6 +44,38 @@ Theorem rmsd_prune_idempotent :
   prune_on_rmsd A d tol l = Ok r -> prune_on_rmsd A d tol r = Ok r.
 Proof. exact prune_on_rmsd_idem. Qed.
 
+(* The tolerance ARGUMENT of prune_on_rmsd (conformers.py:180-191).  PARTIAL: the three RMSD theorems
+   above apply to a call whenever the argument is None, a python float, or a Distance given in Angstrom
+   (first conjunct: the threshold used is the threshold meant) ... *)
+Theorem rmsd_tolerance_argument_partial :
+  forall (A : Type) (d : A -> A -> Qc) (default : Qc) (t : tol_arg) (l : list A),
+  (match t with TNone => True | TFloat _ => True | TDistance _ f => f = Q2Qc 1 | TOther _ => False end) ->
+  rmsd_tol_used default t = Some (rmsd_tol_meant default t) /\
+  prune_on_rmsd_arg A d default t l = prune_on_rmsd A d (rmsd_tol_meant default t) l.
+Proof.
+  intros A d default t l Ht. unfold prune_on_rmsd_arg, prune_on_rmsd.
+  destruct t as [| x | x | x f]; cbn [rmsd_tol_used rmsd_tol_meant] in *; try contradiction.
+  - split; [reflexivity|]. destruct (length l <? 2); reflexivity.
+  - split; [reflexivity|]. destruct (length l <? 2); reflexivity.
+  - subst f. replace (x * Q2Qc 1)%Qc with x by ring. split; [reflexivity|]. destruct (length l <? 2); reflexivity.
+Qed.
+
+(* ... and is FALSE otherwise: an int (or numpy scalar) tolerance raises for two or more conformers, and a
+   Distance in another unit is used as if it were Angstrom (0.01 nm is used as 0.01, meant 0.1).
+   FINDINGS: Conformers.prune_on_rmsd|non-float-tolerance-raises, |Distance-unit-ignored. *)
+Theorem rmsd_tolerance_argument_refuted :
+  (exists (t : tol_arg) (l : list nat), prune_on_rmsd_arg nat (fun _ _ => Q2Qc 1) (qc 3 10) t l = Crash) /\
+  (exists t, rmsd_tol_used (qc 3 10) t <> Some (rmsd_tol_meant (qc 3 10) t) /\
+             exists (l : list nat) (d : nat -> nat -> Qc),
+               prune_on_rmsd_arg nat d (qc 3 10) t l <> prune_on_rmsd nat d (rmsd_tol_meant (qc 3 10) t) l).
+Proof.
+  split.
+  - exists (TOther (qc 1 1)), [0; 1]. reflexivity.
+  - exists (TDistance (qc 1 100) (qc 10 1)). split.
+    + cbn [rmsd_tol_used rmsd_tol_meant]. intro H. injection H as H. discriminate H.
+    + exists [0; 1], (fun _ _ => qc 5 100). vm_compute. discriminate.
+Qed.
+
 (* =================================== energy pruning ========================================= *)
 
 (* No mixture of conformers with and without energies makes prune_on_energy raise (the Crash
@@ -266,6 +298,7 @@ Theorem complex_atoms_concat :
   c_atoms At ms = concat (map (m_atoms At) ms) /\ length (c_atoms At ms) = nsum At (natoms At) ms.
 Proof. intros At ms. split; [apply c_atoms_concat|apply c_atoms_length]. Qed.
 
+(* (definitional: the left fold of Python's sum() equals the sum; the content is in the correspondence) *)
 Theorem complex_charge_sum :
   forall (At : Type) (ms : list (mol At)), c_charge At ms = fold_right Z.add 0%Z (map (m_charge At) ms).
 Proof. exact c_charge_sum. Qed.
@@ -295,45 +328,60 @@ Proof.
   split; [apply off_all|]. split; [apply partition_all|]. apply c_atoms_nth.
 Qed.
 
-(* The graph is the disjoint union: node count = sum of the node counts; the edges are exactly the
-   molecules' edges shifted by the number of nodes before the molecule; and when every molecule's
-   graph has one node per atom and in-range edges, every edge of the complex joins two atoms of the
-   SAME molecule's index range (no inter-molecular bond). *)
-Theorem complex_graph_disjoint_union :
+(* The graph of the complex is nx.disjoint_union_all of the molecules' graphs, which relabels every
+   node by its POSITION in the graph's iteration order.  PARTIAL: it is the disjoint union ALIGNED with
+   the atoms (node count, edges = the molecules' edges shifted by the number of atoms before the
+   molecule, every edge inside one molecule's atom_indexes range) PROVIDED every molecule's graph lists
+   its nodes in label order 0..n-1 with in-range edges and one node per atom (`sorted_nodes`) — true of
+   a freshly perceived graph, false after Species.reorder_atoms on a molecule whose graph exists. *)
+Theorem complex_graph_disjoint_union_partial :
   forall (At : Type) (ms : list (mol At)),
+  (forall m, In m ms -> sorted_nodes At m) ->
+  c_graph At ms = union_shift At 0 ms /\
   fst (c_graph At ms) = nsum At (g_nodes At) ms /\
   (forall a b, In (a, b) (snd (c_graph At ms)) <->
      exists k m a' b', nth_error ms k = Some m /\ In (a', b') (g_edges At m) /\
                        a = goff At ms k + a' /\ b = goff At ms k + b') /\
-  ((forall m, In m ms -> g_nodes At m = length (m_atoms At m) /\
-                         forall a' b', In (a', b') (g_edges At m) -> a' < g_nodes At m /\ b' < g_nodes At m) ->
+  ((forall m, In m ms -> g_nodes At m = length (m_atoms At m)) ->
    fst (c_graph At ms) = length (c_atoms At ms) /\
    forall a b, In (a, b) (snd (c_graph At ms)) ->
      exists k idxs, atom_indexes At ms k = Some idxs /\ In a idxs /\ In b idxs).
 Proof.
-  intros At ms. unfold c_graph. split; [rewrite union_from_nodes; reflexivity|]. split.
-  - intros a b. rewrite union_from_edges. cbn [plus]. reflexivity.
-  - intro Hwf.
-    assert (Hn : forall m, In m ms -> g_nodes At m = natoms At m) by (intros m Hm; apply (Hwf m Hm)).
+  intros At ms Hs. unfold c_graph. rewrite (union_from_sorted At ms Hs 0).
+  split; [reflexivity|]. split; [rewrite union_shift_nodes; reflexivity|]. split.
+  - intros a b. rewrite union_shift_edges. cbn [plus]. reflexivity.
+  - intro Hn0.
+    assert (Hn : forall m, In m ms -> g_nodes At m = natoms At m) by (intros m Hm; apply (Hn0 m Hm)).
     split.
-    + rewrite union_from_nodes. cbn [plus]. rewrite (nsum_ext_in At _ (natoms At) ms Hn).
+    + rewrite union_shift_nodes. cbn [plus]. rewrite (nsum_ext_in At _ (natoms At) ms Hn).
       rewrite c_atoms_length. reflexivity.
-    + intros a b Hab. apply union_from_edges in Hab. cbn [plus] in Hab.
+    + intros a b Hab. apply union_shift_edges in Hab. cbn [plus] in Hab.
       destruct Hab as [k [m [a' [b' [Hk [Hin [-> ->]]]]]]].
       exists k, (seq (off At ms k) (natoms At m)). rewrite atom_indexes_spec, Hk.
       split; [reflexivity|]. rewrite (goff_off At ms k Hn).
       assert (Hm : In m ms) by (eapply nth_error_In; exact Hk).
-      destruct (Hwf m Hm) as [Hg He]. destruct (He a' b' Hin) as [Ha Hb].
-      fold (natoms At m) in Hg. rewrite Hg in Ha, Hb.
-      split; apply in_seq; lia.
+      destruct (Hs m Hm) as [_ He]. destruct (He a' b' Hin) as [Ha Hb].
+      rewrite (Hn m Hm) in Ha, Hb. split; apply in_seq; lia.
+Qed.
+
+(* Without that proviso "disjoint-union bond graph [matching the] per-molecule index ranges" is FALSE of the
+   code.  Witness: HCN whose atoms were re-ordered to C,N,H after its graph was built (node iteration order
+   2,0,1; edges C-N = (0,1), C-H = (0,2)): the complex gets the edges (1,2),(1,0), i.e. "N-H, N-C".
+   FINDING (replayed on the real Complex): Complex.__init__|graph-misaligned-after-reorder_atoms. *)
+Theorem complex_graph_disjoint_union_refuted :
+  exists ms : list (mol nat), c_graph nat ms <> union_shift nat 0 ms.
+Proof.
+  exists [mkMol nat [6; 7; 1] 0 1 3 [2; 0; 1] [(0, 1); (0, 2)]]. vm_compute. discriminate.
 Qed.
 
 (* =================================== rigid-body conformers ================================== *)
 
-(* PARTIAL (the rotation axis/angle -> matrix step, Atom.rotate, is taken as an orthogonal matrix and
-   the while-loop as fuel): translating, rotating about any centre and pushing preserve every
-   distance inside the moved set, for every number of atoms. *)
-Theorem rigid_body_preserves_internal :
+(* PARTIAL.  Proved: the three primitive moves used by get_complex_conformer_atoms (translate, rotate by
+   an orthogonal matrix about any centre, push along a direction) preserve every distance inside the
+   moved set, for every number of atoms.  MISSING: there is no Gallina model of the generator itself (the
+   loop over molecules, Atom.rotate's axis/angle -> matrix step, `atoms += shifted`), so that the code
+   composes only these moves is NOT proved; it is exercised on the implementation only (stream rigid-body). *)
+Theorem rigid_body_preserves_internal_partial :
   (forall R c p q, orthogonal R -> dist2 (rigid R c p) (rigid R c q) = dist2 p q) /\
   (forall t p q, dist2 (translate t p) (translate t q) = dist2 p q) /\
   (forall fuel cur ml point ml', push fuel cur ml point = Some ml' ->
@@ -350,9 +398,11 @@ Proof.
   apply dist2_translate.
 Qed.
 
-(* When the push loop exits, every atom of the added molecule is more than 2 Angstrom (squared: 4)
-   from every atom already placed; later rigid motions of the whole complex keep that. *)
-Theorem separation_gt_2_on_exit :
+(* PARTIAL.  Proved: WHEN the push loop exits, every atom of the added molecule is more than 2 Angstrom
+   (squared: 4) from every atom already placed, and later rigid motions of the whole complex keep that.
+   MISSING: termination of the while-loop (the hypothesis `push fuel ... = Some ml'` excludes running out of
+   fuel; the bound "after k pushes the distance is >= 0.1 k - r1 - r2" of the design is not proved). *)
+Theorem separation_gt_2_on_exit_partial :
   forall fuel cur ml point ml', push fuel cur ml point = Some ml' ->
   forall p q, In p cur -> In q ml' -> (Q2Qc 4 < dist2 p q)%Qc /\
     forall R c, orthogonal R -> (Q2Qc 4 < dist2 (rigid R c p) (rigid R c q))%Qc.
